@@ -4,6 +4,6 @@ CONSTANT MaxSteps = 12
 CONSTANT Thresholds = {0, 1, 2, 100}
 CONSTANT MaxBatch = 2
 CONSTANT FeedModes = {TRUE, FALSE}
-SPECIFICATION Spec
+SPECIFICATION SimSpec
 INVARIANT BehaviourExport
 CHECK_DEADLOCK FALSE
